@@ -3,6 +3,15 @@ mod init;
 mod output;
 mod terminal_display;
 
+/// Verification-only entry points (cargo feature `verif-hooks`, off by default): names only,
+/// so that a harness can load a workspace and feed `output_result` every arrival order of the
+/// result channel.
+#[cfg(feature = "verif-hooks")]
+pub mod verif_api {
+    pub use crate::init::load_workspace;
+    pub use crate::output::output_result;
+}
+
 pub use cmd_args::*;
 use output::output_result;
 use std::{error::Error, sync::Arc};
